@@ -1,7 +1,7 @@
 import numpy as np
 import opt_einsum
 
-from numqi.utils import hf_num_state_to_num_qubit
+from numqi.utils import hf_num_state_to_num_qubit, hf_tuple_of_int
 
 # TODO merge with circuit
 
@@ -34,6 +34,7 @@ def apply_gate(dm:np.ndarray, op:np.ndarray, index:int|tuple[int]):
     num_state = len(dm)
     assert dm.ndim==2 and dm.shape==(num_state,num_state)
     num_qubit = hf_num_state_to_num_qubit(num_state)
+    index = list(hf_tuple_of_int(index))
     N0 = len(index)
     assert num_state==(2**num_qubit)
     assert all(isinstance(x,int) and (0<=x) and (x<num_qubit) for x in index)
@@ -93,6 +94,7 @@ def operator_expectation(dm0:np.ndarray, op:np.ndarray, index:int|tuple[int]):
     '''
     num_state = len(dm0)
     num_qubit = hf_num_state_to_num_qubit(num_state)
+    index = list(hf_tuple_of_int(index))
     ind_map = {y:(x+num_qubit) for x,y in enumerate(index)}
     tmp0 = dm0.reshape((2,)*(2*num_qubit))
     tmp1 = [ind_map.get(x, x) for x in range(num_qubit)] + list(range(num_qubit))
